@@ -11,8 +11,9 @@ import vf
 
 
 def _s(codes):
+    """Text of a code sequence; 0x110000+b (a lone byte, invalid UTF-8) is shown as \\xNN."""
     try:
-        return "".join(chr(c) for c in codes)
+        return "".join(chr(c) if c < 0x110000 else "\\x%02x" % (c - 0x110000) for c in codes)
     except (ValueError, TypeError):
         return repr(codes)
 
@@ -137,7 +138,7 @@ def run(ctx):
     quick = ctx.tier == "quick"
     ctx.level = "exploration"
     nproc = _nproc(ctx)
-    stride = 4 if quick else 1
+    stride = 32 if quick else 1
     nrec = 4000 if quick else 80000
     conc_g, conc_m = 16, (10000 if quick else 100000)
 
@@ -152,6 +153,7 @@ def run(ctx):
     # ---- 1. generators
     jobs = [("MC_Uuid_sub.cfg", dict(VF_SHARD=i, VF_NSHARD=nproc, VF_STRIDE=stride, VF_SEED=ctx.seed), "gen_sub_%d" % i)
             for i in range(nproc)]
+    jobs += [("MC_Uuid_canonsub.cfg", dict(VF_SHARD=i, VF_NSHARD=nproc), "gen_canonsub_%d" % i) for i in range(nproc)]
     jobs += [("MC_Uuid_ins.cfg", {}, "gen_ins"), ("MC_Uuid_canon.cfg", {}, "gen_canon"), ("MC_Uuid_v1.cfg", {}, "gen_v1"),
              ("MC_Uuid_time.cfg", {}, "gen_time")]
     cases, gen_states = [], 0
